@@ -251,10 +251,11 @@ class Transform(data_input.DataInputAbstract, Numbered_MCNP_Object):
             if abs(component - other.displacement_vector[i]) >= tolerance:
                 return False
 
-        if len(self.rotation_matrix) > 0:
-            if len(other.rotation_matrix) == 0:
+        # the relation must be symmetric: a transform without a rotation matrix (or with a
+        # partially specified one) is only equivalent to one with as many entries.
+        if len(self.rotation_matrix) != len(other.rotation_matrix):
+            return False
+        for i, component in enumerate(self.rotation_matrix):
+            if abs(component - other.rotation_matrix[i]) >= tolerance:
                 return False
-            for i, component in enumerate(self.rotation_matrix):
-                if abs(component - other.rotation_matrix[i]) >= tolerance:
-                    return False
         return True
